@@ -52,6 +52,10 @@ pub enum Mutation {
     /// the verifier's own tree changes after the message was produced (and may change back):
     /// verify_rln_proof is asked after every step
     VerifierTree(Vec<TOp>),
+    /// the same value under another 32-byte encoding: v + k*p (k = 1..5, as long as it fits)
+    FieldAlias(u8, u8),
+    /// declared signal length = real length + m * 2^shift (shift in {8, 16, 32, 48, 56, 63})
+    DeclaredLenHighBits { shift: u8, m: u8 },
 }
 
 #[derive(Clone, Copy, Debug, Serialize, Deserialize, PartialEq, Eq)]
@@ -108,6 +112,26 @@ fn build(pool: &Pool, c: &Case) -> (Vec<u8>, Vec<u8>) {
                 NewVal::FromOtherMessage => BigUint::from_bytes_le(&other.msg[off..off + 32]),
             };
             msg[off..off + 32].copy_from_slice(&cr::enc_fr(&newv));
+        }
+        Mutation::FieldAlias(f, k) => {
+            let off = field_off(*f);
+            let cur = BigUint::from_bytes_le(&msg[off..off + 32]);
+            let mut k = (*k % 5) as u32 + 1;
+            // the largest multiple that still fits into 32 bytes
+            while k > 0 && (&cur + p() * k).bits() > 256 {
+                k -= 1;
+            }
+            if k > 0 {
+                let alias = &cur + p() * k;
+                let mut b = alias.to_bytes_le();
+                b.resize(32, 0);
+                msg[off..off + 32].copy_from_slice(&b);
+            }
+        }
+        Mutation::DeclaredLenHighBits { shift, m } => {
+            let sh = [8u32, 16, 32, 48, 56, 63][*shift as usize % 6];
+            let add = ((*m as u64 % 3) + 1).wrapping_shl(sh);
+            declared = Some((signal.len() as u64).wrapping_add(add));
         }
         Mutation::Swap(a, b) => {
             let (oa, ob) = (field_off(*a), field_off(a.wrapping_add(1 + b % 4)));
@@ -341,7 +365,7 @@ impl Property for C02 {
         "C02"
     }
     fn rule(&self) -> String {
-        "a pool of accepted messages (C01's generator) x modifications of the decoded message: each of root / external nullifier / x / y / nullifier replaced by +1, -1, another field's value, 0, a random value or the same field of another accepted message; two fields swapped; any single bit of the 128 proof bytes flipped; the proof of another accepted message; signal byte flipped / appended / truncated / emptied / replaced, with and without adjusting the declared length; declared length extended over trailing bytes; root sets without the root, with it at every position, with near-misses root±1, made only of distinguished values (zero entries, the empty tree's root, p-1, 1) with and without the real root, and empty; on verify / verify_rln_proof / verify_with_roots. Generated VerifierTree cases: up to 7 changes of the verifier's own tree after proving (writes/deletes at the sibling, neighbours, other members, overwriting/deleting/restoring the prover's leaf, restoring everything) with verify_rln_proof after every step: accepted exactly when the ideal tree's root equals the message's root. Fixed part: verifier tree changed after proving (set/delete other leaves, the prover's leaf) and restored. \
+        "a pool of accepted messages (C01's generator) x modifications of the decoded message: each of root / external nullifier / x / y / nullifier replaced by +1, -1, another field's value, 0, a random value or the same field of another accepted message; two fields swapped; any single bit of the 128 proof bytes flipped; the proof of another accepted message; signal byte flipped / appended / truncated / emptied / replaced, with and without adjusting the declared length; declared length extended over trailing bytes or changed only in its high bits (real length + m*2^k, k in 8..63); each public value re-encoded as v + k*p; root sets without the root, with it at every position, with near-misses root±1, made only of distinguished values (zero entries, the empty tree's root, p-1, 1) with and without the real root, and empty; on verify / verify_rln_proof / verify_with_roots. Generated VerifierTree cases: up to 7 changes of the verifier's own tree after proving (writes/deletes at the sibling, neighbours, other members, overwriting/deleting/restoring the prover's leaf, restoring everything) with verify_rln_proof after every step: accepted exactly when the ideal tree's root equals the message's root. Fixed part: verifier tree changed after proving (set/delete other leaves, the prover's leaf) and restored. \
          Oracle (computed independently per input): true iff proof+value bytes are the accepted message's, Keccak_ref(declared signal) = carried x and the root condition holds. non-trivial = a modification that breaks exactly one of the three conditions; distinct by case content".into()
     }
     fn assumptions(&self) -> Vec<String> {
@@ -371,6 +395,8 @@ impl Property for C02 {
             1 => any::<u8>().prop_map(Mutation::DeclaredLenLongerWithTail),
             4 => (proptest::option::of(any::<u8>()), any::<u8>(), any::<bool>()).prop_map(|(with_root_at, others, near_miss)| Mutation::RootSet { with_root_at, others, near_miss }),
             2 => (0u8..4, any::<u8>(), any::<bool>()).prop_map(|(kind, count, with_root)| Mutation::RootSetSpecial { kind, count, with_root }),
+            3 => (0u8..5, any::<u8>()).prop_map(|(f, k)| Mutation::FieldAlias(f, k)),
+            2 => (0u8..6, any::<u8>()).prop_map(|(shift, m)| Mutation::DeclaredLenHighBits { shift, m }),
             1 => proptest::collection::vec(prop_oneof![
                     4 => (any::<u16>(), 0u8..6).prop_map(|(s, v)| TOp::SetOther(s, v)),
                     2 => any::<u16>().prop_map(TOp::DeleteOther),
